@@ -15,6 +15,7 @@ def opOf (j : Json) : Op :=
   | "query" => .query (jnat j "id")
   | "dial" => .dial (jnat j "id")
   | "secured" => .secured (jnat j "id")
+  | "secured-out" => .secured (jnat j "id")   -- the hook for a connection this node dialled: same rule
   | _ => .list (natList j "ids")
 
 def ansJson : Ans → Json
